@@ -6,8 +6,23 @@ use crate::scalars::ScalarSpec;
 use serde_json::{json, Value};
 
 pub const TLABELS: [&[u8]; 4] = [b"verif-T0", b"verif-T1", b"R1CSExampleGadget", b""];
-pub const ULABELS: [&[u8]; 4] = [b"ud0", b"ud1", b"app-data", b"ctx"];
-pub const CLABELS: [&[u8]; 3] = [b"c0", b"c1", b"shuffle challenge"];
+pub const ULABELS: [&[u8]; 6] = [
+    b"ud0",
+    b"ud1",
+    b"app-data",
+    b"ctx",
+    // long labels that agree on their first 64 bytes
+    b"application/verif/long-label/0123456789abcdef0123456789abcdef/0123456789/alpha",
+    b"application/verif/long-label/0123456789abcdef0123456789abcdef/0123456789/beta",
+];
+pub const CLABELS: [&[u8]; 5] = [
+    b"c0",
+    b"c1",
+    b"shuffle challenge",
+    // long labels that agree on their first 64 bytes
+    b"gadget/verif/long-challenge-label/0123456789abcdef0123456789abcdef/01234/alpha",
+    b"gadget/verif/long-challenge-label/0123456789abcdef0123456789abcdef/01234/beta",
+];
 
 #[derive(Clone, Copy, Debug, PartialEq, Eq, Hash, PartialOrd, Ord)]
 pub enum Var {
